@@ -1,35 +1,1226 @@
-//! Seeded random behaviour generators, one family per property.
+//! Seeded random behaviour generators, one family per property.  A behaviour is a JSON list of
+//! abstract commands (the same vocabulary TLC emits for replay); data is drawn by the interpreter.
 use crate::factory::Factory;
-use crate::scen::Rng;
+use crate::scen::{Rng, ctr_bits};
 use serde_json::{Value, json};
 
 pub fn fac_name(f: &dyn Factory) -> String {
     format!("{}/{}/{}", f.fam(), f.bs(), f.w())
 }
 
-/// composition of n into positive parts
-pub fn composition(rng: &mut Rng, n: usize, maxpart: usize) -> Vec<usize> {
-    let mut v = vec![];
-    let mut left = n;
-    while left > 0 {
-        let k = rng.range(1, maxpart.min(left));
-        v.push(k);
-        left -= k;
-    }
-    v
+pub const BLOCK_KINDS: [&str; 6] = ["cbc", "pcbc", "ige", "cfb", "cfb8", "ofbblk"];
+pub const CTR_KINDS: [&str; 6] = ["ctr32be", "ctr32le", "ctr64be", "ctr64le", "ctr128be", "ctr128le"];
+pub const CTS_KINDS: [&str; 6] = ["cbccs1", "cbccs2", "cbccs3", "ecbcs1", "ecbcs2", "ecbcs3"];
+pub const SEEK_TYPES: [&str; 5] = ["i32", "u32", "u64", "u128", "usize"];
+
+struct G<'a> {
+    facs: &'a [Box<dyn Factory>],
+    rng: &'a mut Rng,
+    thorough: bool,
+    cmds: Vec<Value>,
 }
 
-pub fn generate(prop: &str, _tier: &str, facs: &[Box<dyn Factory>], rng: &mut Rng, _i: usize) -> Value {
-    match prop {
-        _ => {
-            let f = rng.pick(facs);
-            let fname = fac_name(f.as_ref());
-            let mut cmds = vec![json!({"op":"new","o":"a","fac":fname,"kind":"cbc","dir":"enc","key":0,"iv":{"rand":0},"src":{"rand":0}})];
-            for k in composition(rng, rng.clone().range(1, 8), 4) {
-                cmds.push(json!({"op":"blocks","o":"a","n":k,"multi":rng.coin(),"b2b":rng.coin()}));
-                cmds.push(json!({"op":"export","o":"a"}));
+fn type_max(t: &str) -> u128 {
+    match t {
+        "i32" => i32::MAX as u128,
+        "u32" => u32::MAX as u128,
+        "u64" | "usize" => u64::MAX as u128,
+        _ => u128::MAX,
+    }
+}
+
+impl<'a> G<'a> {
+    /// factories that support `kind`; huge blocks are rarer
+    fn pick_fac(&mut self, kind: &str) -> usize {
+        loop {
+            let i = self.rng.below(self.facs.len());
+            let f = &self.facs[i];
+            if !f.supports(kind) {
+                continue;
             }
-            json!(cmds)
+            if f.bs() > 48 && !self.rng.chance(1, if self.thorough { 3 } else { 6 }) {
+                continue;
+            }
+            return i;
         }
+    }
+    /// all factories computing the same function family as `i` (same cipher, same block size; any width)
+    fn same_fn(&self, i: usize, kind: &str) -> Vec<usize> {
+        let (fam, bs) = (self.facs[i].fam(), self.facs[i].bs());
+        (0..self.facs.len())
+            .filter(|&j| self.facs[j].fam() == fam && self.facs[j].bs() == bs && self.facs[j].supports(kind))
+            .collect()
+    }
+    fn name(&self, i: usize) -> String {
+        fac_name(self.facs[i].as_ref())
+    }
+    fn bs(&self, i: usize) -> usize {
+        self.facs[i].bs()
+    }
+    fn w(&self, i: usize) -> usize {
+        self.facs[i].w()
+    }
+    fn unit(&self, i: usize, kind: &str) -> usize {
+        if kind == "cfb8" { 1 } else { self.bs(i) }
+    }
+    /// number of blocks with a bias towards 0, 1, W, W+1, 2W, 2W+tail
+    fn nblocks(&mut self, w: usize, max: usize) -> usize {
+        let c = [0, 1, 2, w, w + 1, 2 * w, 2 * w + 1, 3 * w + 2];
+        let n = if self.rng.chance(1, 2) { *self.rng.pick(&c) } else { self.rng.range(0, max) };
+        n.min(max)
+    }
+    /// byte length biased around multiples of bs
+    fn nbytes(&mut self, bs: usize, maxblocks: usize) -> usize {
+        let k = self.rng.range(0, maxblocks);
+        let d = *self.rng.pick(&[0usize, 0, 1, bs - 1, bs / 2, 2]);
+        let n = k * bs + d.min(bs.saturating_sub(1));
+        n.min(maxblocks * bs + bs - 1)
+    }
+    fn composition(&mut self, n: usize, maxpart: usize, zeros: bool) -> Vec<usize> {
+        let mut v = vec![];
+        let mut left = n;
+        while left > 0 {
+            if zeros && self.rng.chance(1, 6) {
+                v.push(0);
+                continue;
+            }
+            let k = self.rng.range(1, maxpart.max(1).min(left));
+            v.push(k);
+            left -= k;
+        }
+        if zeros && self.rng.chance(1, 4) {
+            v.push(0);
+        }
+        v
+    }
+    fn new_obj(&mut self, o: &str, fac: usize, kind: &str, dir: &str, key: u64, iv: Value, src: Value, via: &str) {
+        self.cmds.push(json!({"op":"new","o":o,"fac":self.name(fac),"kind":kind,"dir":dir,"key":key,"iv":iv,
+            "via":via,"src":src}));
+    }
+    fn blocks(&mut self, o: &str, n: usize, multi: bool, b2b: bool) {
+        self.cmds.push(json!({"op":"blocks","o":o,"n":n,"multi":multi,"b2b":b2b}));
+    }
+    fn bytes(&mut self, o: &str, n: usize, b2b: bool) {
+        self.cmds.push(json!({"op":"bytes","o":o,"n":n,"b2b":b2b}));
+    }
+    fn oneshot(&mut self, o: &str, how: &str, n: usize, b2b: bool) {
+        self.cmds.push(json!({"op":"oneshot","o":o,"how":how,"n":n,"b2b":b2b}));
+    }
+    fn op(&mut self, op: &str, o: &str) {
+        self.cmds.push(json!({"op":op,"o":o}));
+    }
+    /// drive a block-level object through n units by a random schedule
+    fn sched_blocks(&mut self, o: &str, n: usize, w: usize, b2b: Option<bool>, export: bool) {
+        for k in self.composition(n, (2 * w + 2).max(3), false) {
+            let multi = self.rng.chance(2, 3);
+            let b = b2b.unwrap_or_else(|| self.rng.coin());
+            self.blocks(o, k, multi, b);
+            if export && self.rng.chance(1, 2) {
+                self.op("export", o);
+            }
+        }
+    }
+    fn sched_bytes(&mut self, o: &str, n: usize, bs: usize, b2b: Option<bool>, export: bool) {
+        for k in self.composition(n, 2 * bs + 1, true) {
+            let b = b2b.unwrap_or_else(|| self.rng.coin());
+            self.bytes(o, k, b);
+            if export && self.rng.chance(1, 3) {
+                self.op("export", o);
+            }
+        }
+    }
+    /// an IV spec; CTR kinds get boundary-biased counter fields
+    fn iv_for(&mut self, kind: &str, id: u64) -> Value {
+        let base = kind.trim_end_matches("core");
+        if let Some(bits) = ctr_bits(base) {
+            if base != "belt" && self.rng.chance(2, 3) {
+                let max: u128 = if bits == 128 { u128::MAX } else { (1u128 << bits) - 1 };
+                let k = self.rng.below(4) as u128;
+                let e = self.rng.range(1, bits as usize - 1) as u32;
+                let val = *self.rng.pick(&[max, max - 1, max - k, (1u128 << e) - 1, (1u128 << e) - 2, 0, 1, 255, 256, max / 2]);
+                return json!({"rand": id, "field": {"val": val.to_string()}});
+            }
+            if base == "belt" && self.rng.chance(1, 2) {
+                let k = self.rng.below(5) as u128;
+                return json!({"belt_s": (u128::MAX - k).to_string()});
+            }
+        }
+        json!({"rand": id})
+    }
+    fn stream_kind(&mut self) -> &'static str {
+        let all = ["ctr32be", "ctr32le", "ctr64be", "ctr64le", "ctr128be", "ctr128le", "ofb", "belt"];
+        all[self.rng.below(all.len())]
+    }
+    fn seek_kind(&mut self) -> &'static str {
+        let all = ["ctr32be", "ctr32le", "ctr64be", "ctr64le", "ctr128be", "ctr128le", "belt"];
+        all[self.rng.below(all.len())]
+    }
+}
+
+fn core_of(k: &str) -> String {
+    format!("{k}core")
+}
+
+/// which API families a kind offers
+fn is_block(k: &str) -> bool {
+    BLOCK_KINDS.contains(&k)
+}
+
+pub fn generate(prop: &str, tier: &str, facs: &[Box<dyn Factory>], rng: &mut Rng, _i: usize) -> Value {
+    let mut g = G { facs, rng, thorough: tier == "thorough", cmds: vec![] };
+    match prop {
+        "C01" => gen_c01(&mut g),
+        "C02" => gen_conf(&mut g, &["cbc", "pcbc", "ige"]),
+        "C03" => gen_conf(&mut g, &["cfb", "cfb8", "ofbblk", "cfbbuf", "ofb", "ofbcore"]),
+        "C04" => gen_ctr(&mut g, false),
+        "C05" => gen_cts(&mut g),
+        "C06" => gen_ctr(&mut g, true),
+        "C07" => gen_c07(&mut g),
+        "C08" => gen_c08(&mut g),
+        "C09" => gen_c09(&mut g),
+        "C10" => gen_c10(&mut g),
+        "C11" => gen_c11(&mut g),
+        "C12" => gen_c12(&mut g),
+        "C13" => gen_c13(&mut g),
+        "C14" => gen_c14(&mut g),
+        "C15" => gen_c15(&mut g),
+        "C16" => gen_c16(&mut g),
+        "C17" => gen_c17(&mut g),
+        "C11probe" => probe_c11(&mut g),
+        "C17probe" => probe_c17(&mut g),
+        _ => panic!("harness: unknown property {prop}"),
+    }
+    json!(g.cmds)
+}
+
+// ---------------------------------------------------------------------------------------------
+fn gen_c01(g: &mut G) {
+    let choice = g.rng.below(10);
+    match choice {
+        0..=3 => {
+            // block-level pair, possibly different widths on the two sides
+            let kind = *g.rng.pick(&BLOCK_KINDS);
+            let f = g.pick_fac(kind);
+            let fs = g.same_fn(f, kind);
+            let fd = *g.rng.pick(&fs);
+            let iv = json!({"rand": 0});
+            g.new_obj("e", f, kind, "enc", 0, iv.clone(), json!({"rand": 0}), "inner");
+            g.new_obj("d", fd, kind, "dec", 0, iv, json!({"out": "e"}), "inner");
+            let n = g.nblocks(g.w(fd), 9) * if kind == "cfb8" { 3 } else { 1 };
+            let (we, wd) = (g.w(f), g.w(fd));
+            let half = g.rng.range(0, n);
+            g.sched_blocks("e", half, we, None, false);
+            g.sched_blocks("d", half, wd, None, false);
+            g.sched_blocks("e", n - half, we, None, false);
+            g.sched_blocks("d", n - half, wd, None, false);
+        }
+        4 => {
+            let f = g.pick_fac("cfbbuf");
+            let bs = g.bs(f);
+            g.new_obj("e", f, "cfbbuf", "enc", 0, json!({"rand":0}), json!({"rand":0}), "inner");
+            g.new_obj("d", f, "cfbbuf", "dec", 0, json!({"rand":0}), json!({"out":"e"}), "inner");
+            let n = g.nbytes(bs, 5);
+            g.sched_bytes("e", n, bs, Some(false), false);
+            g.sched_bytes("d", n, bs, Some(false), false);
+        }
+        5 | 6 => {
+            let kind = g.stream_kind();
+            let f = g.pick_fac(kind);
+            let bs = g.bs(f);
+            let iv = g.iv_for(kind, 0);
+            g.new_obj("e", f, kind, "ks", 0, iv.clone(), json!({"rand":0}), "inner");
+            g.new_obj("d", f, kind, "ks", 0, iv, json!({"out":"e"}), "inner");
+            let n = g.nbytes(bs, 5);
+            g.sched_bytes("e", n, bs, None, false);
+            g.sched_bytes("d", n, bs, None, false);
+        }
+        7 => {
+            let kind = *g.rng.pick(&CTS_KINDS);
+            let f = g.pick_fac(kind);
+            let bs = g.bs(f);
+            let n = bs + g.nbytes(bs, 6);
+            g.new_obj("e", f, kind, "enc", 0, json!({"rand":0}), json!({"rand":0}), "inner");
+            g.new_obj("d", f, kind, "dec", 0, json!({"rand":0}), json!({"out":"e"}), "inner");
+            let (b1, b2) = (g.rng.coin(), g.rng.coin());
+            g.oneshot("e", "cts", n, b1);
+            g.oneshot("d", "cts", n, b2);
+        }
+        8 => {
+            let kind = *g.rng.pick(&["cfb", "cfb8"]);
+            let f = g.pick_fac(kind);
+            let bs = g.bs(f);
+            let n = g.nbytes(bs, 5);
+            g.new_obj("e", f, kind, "enc", 0, json!({"rand":0}), json!({"rand":0}), "inner");
+            g.new_obj("d", f, kind, "dec", 0, json!({"rand":0}), json!({"out":"e"}), "inner");
+            let (b1, b2) = (g.rng.coin(), g.rng.coin());
+            g.oneshot("e", "async", n, b1);
+            g.oneshot("d", "async", n, b2);
+        }
+        _ => {
+            let kind = *g.rng.pick(&["cbc", "pcbc", "ige", "cfb", "ofbblk"]);
+            let f = g.pick_fac(kind);
+            let bs = g.bs(f);
+            let n = g.nbytes(bs, 5);
+            g.new_obj("e", f, kind, "enc", 0, json!({"rand":0}), json!({"rand":0}), "inner");
+            g.new_obj("d", f, kind, "dec", 0, json!({"rand":0}), json!({"out":"e"}), "inner");
+            let (b1, b2) = (g.rng.coin(), g.rng.coin());
+            let room = bs * (n / bs + 1);
+            g.cmds.push(json!({"op":"oneshot","o":"e","how":"padded","n":n,"b2b":b1,"junklen":room + g.rng.below(3)}));
+            g.cmds.push(json!({"op":"oneshot","o":"d","how":"padded","n":room,"b2b":b2,"junklen":room + g.rng.below(3)}));
+        }
+    }
+}
+
+/// C02 / C03: every front-end of the listed kinds against the definition
+fn gen_conf(g: &mut G, kinds: &[&str]) {
+    let kind = *g.rng.pick(kinds);
+    let f = g.pick_fac(kind);
+    let (bs, w) = (g.bs(f), g.w(f));
+    let dir = if g.rng.coin() { "enc" } else { "dec" };
+    match kind {
+        "cfbbuf" => {
+            g.new_obj("a", f, kind, dir, 0, json!({"rand":0}), json!({"rand":0}), "inner");
+            let n = g.nbytes(bs, 5);
+            g.sched_bytes("a", n, bs, Some(false), true);
+        }
+        "ofb" => {
+            g.new_obj("a", f, kind, "ks", 0, json!({"rand":0}), json!({"rand":0}), "inner");
+            let n = g.nbytes(bs, 5);
+            g.sched_bytes("a", n, bs, None, true);
+        }
+        "ofbcore" => {
+            g.new_obj("a", f, kind, "ks", 0, json!({"rand":0}), json!({"rand":0}), "inner");
+            let n = g.nblocks(w, 8);
+            g.sched_blocks("a", n, w, None, true);
+            if g.rng.coin() {
+                g.cmds.push(json!({"op":"ks","o":"a","n":g.rng.range(1, 3),"multi":g.rng.coin()}));
+            }
+        }
+        _ => {
+            g.new_obj("a", f, kind, dir, 0, json!({"rand":0}), json!({"rand":0}), "inner");
+            let oneshot = (kind == "cfb" || kind == "cfb8") && g.rng.chance(1, 4);
+            let n = g.nblocks(w, 9) * if kind == "cfb8" { 2 } else { 1 };
+            if oneshot {
+                let pre = g.rng.range(0, n.min(3));
+                g.sched_blocks("a", pre, w, None, true);
+                let m = g.nbytes(bs, 4);
+                let b = g.rng.coin();
+                g.oneshot("a", "async", m, b);
+            } else {
+                g.sched_blocks("a", n, w, None, true);
+                g.op("export", "a");
+            }
+        }
+    }
+}
+
+/// C04 (CTR flavours) / C06 (BelT): keystream at near and far positions, wrapper and core
+fn gen_ctr(g: &mut G, belt: bool) {
+    let kind: &str = if belt { "belt" } else { *g.rng.pick(&CTR_KINDS) };
+    let f = g.pick_fac(kind);
+    let bs = g.bs(f);
+    let bits = ctr_bits(kind).unwrap();
+    let iv = g.iv_for(kind, 0);
+    let core = g.rng.chance(1, 3);
+    // a far block index, well inside the keystream
+    let far: Option<u128> = if g.rng.chance(1, 2) {
+        let e = g.rng.range(8, bits as usize - 1) as u32;
+        let base = *g.rng.pick(&[(1u128 << e) - 2, (1u128 << e) - 1, 1u128 << (bits - 1), (1u128 << 31) - 1,
+            if bits > 32 { (1u128 << 32) - 1 } else { 1000 }, if bits > 64 { (1u128 << 64) - 2 } else { 77 }]);
+        let max = if bits == 128 { u128::MAX } else { (1u128 << bits) - 1 };
+        Some(base.min(max - 64))
+    } else {
+        None
+    };
+    if core {
+        let ck = core_of(kind);
+        g.new_obj("a", f, &ck, "ks", 0, iv, json!({"rand":0}), "inner");
+        if let Some(b) = far {
+            g.cmds.push(json!({"op":"setbpos","o":"a","v":b.to_string()}));
+        }
+        let w = g.w(f);
+        let n = g.nblocks(w, 8);
+        g.sched_blocks("a", n, w, None, false);
+        if g.rng.coin() {
+            g.cmds.push(json!({"op":"ks","o":"a","n":g.rng.range(1, 2 * w + 1),"multi":g.rng.coin()}));
+        }
+    } else {
+        g.new_obj("a", f, kind, "ks", 0, iv, json!({"rand":0}), "inner");
+        if let Some(b) = far {
+            // byte position b*bs + r, if it can be expressed as u128
+            if let Some(p) = b.checked_mul(bs as u128) {
+                let p = p + g.rng.below(bs) as u128;
+                let t = if p <= u64::MAX as u128 && g.rng.coin() { "u64" } else { "u128" };
+                g.cmds.push(json!({"op":"seek","o":"a","t":t,"p":p.to_string()}));
+            }
+        }
+        let n = g.nbytes(bs, 5);
+        g.sched_bytes("a", n, bs, None, false);
+    }
+}
+
+fn gen_cts(g: &mut G) {
+    let kind = *g.rng.pick(&CTS_KINDS);
+    let f = g.pick_fac(kind);
+    let (bs, w) = (g.bs(f), g.w(f));
+    let dir = if g.rng.coin() { "enc" } else { "dec" };
+    // every residue, L = bs, L = k*bs, and long messages that run the private parallel paths
+    let n = match g.rng.below(6) {
+        0 => bs,
+        1 => bs * g.rng.range(1, 2 * w + 2),
+        2 => bs * g.rng.range(1, 4) + g.rng.range(1, bs.max(2) - 1).min(bs - 1).max(if bs > 1 { 1 } else { 0 }),
+        3 => bs * (2 * w + g.rng.range(0, 3)) + g.rng.below(bs),
+        _ => bs + g.nbytes(bs, 5),
+    };
+    g.new_obj("a", f, kind, dir, 0, json!({"rand":0}), json!({"rand":0}), "inner");
+    let b = g.rng.coin();
+    g.oneshot("a", "cts", n, b);
+}
+
+/// C07: one data stream, several objects of one kind with different schedules and widths
+fn gen_c07(g: &mut G) {
+    let mut kinds: Vec<String> = BLOCK_KINDS.iter().map(|s| s.to_string()).collect();
+    for k in CTR_KINDS.iter().chain(["belt", "ofb"].iter()) {
+        kinds.push(core_of(k));
+    }
+    for k in CTS_KINDS {
+        kinds.push(k.to_string());
+    }
+    let kind = g.rng.pick(&kinds).clone();
+    let f = g.pick_fac(&kind);
+    let fs = g.same_fn(f, &kind);
+    let bs = g.bs(f);
+    let dir = if kind.ends_with("core") { "ks" } else if g.rng.coin() { "enc" } else { "dec" };
+    let b2b = g.rng.coin();
+    let iv = g.iv_for(&kind, 0);
+    let wmax = fs.iter().map(|&i| g.w(i)).max().unwrap();
+    if CTS_KINDS.contains(&kind.as_str()) {
+        let n = bs * g.rng.range(1, 3 * wmax.min(5) + 2) + if g.rng.coin() { g.rng.below(bs) } else { 0 };
+        for (j, &fi) in fs.iter().enumerate().take(5) {
+            let o = format!("o{j}");
+            g.new_obj(&o, fi, &kind, dir, 0, iv.clone(), json!({"rand":0}), "inner");
+            g.oneshot(&o, "cts", n, b2b);
+        }
+        return;
+    }
+    let n = (g.nblocks(wmax, 3 * wmax.min(4) + 2)).max(1) * if kind == "cfb8" { 2 } else { 1 };
+    let nobj = g.rng.range(2, 4);
+    for j in 0..nobj {
+        let o = format!("o{j}");
+        let fi = if j == 0 { f } else { *g.rng.pick(&fs) };
+        g.new_obj(&o, fi, &kind, dir, 0, iv.clone(), json!({"rand":0}), "inner");
+    }
+    // object 0: one block at a time; others: random partitions; interleave the objects' calls
+    let mut plans: Vec<Vec<(usize, bool)>> = vec![];
+    plans.push((0..n).map(|_| (1usize, false)).collect());
+    for _ in 1..nobj {
+        let parts = g.composition(n, 2 * wmax + 2, false);
+        plans.push(parts.into_iter().map(|k| (k, g.rng.chance(3, 4))).collect());
+    }
+    let mut idx = vec![0usize; nobj];
+    loop {
+        let alive: Vec<usize> = (0..nobj).filter(|&j| idx[j] < plans[j].len()).collect();
+        if alive.is_empty() {
+            break;
+        }
+        let j = *g.rng.pick(&alive);
+        let (k, multi) = plans[j][idx[j]];
+        idx[j] += 1;
+        let o = format!("o{j}");
+        g.blocks(&o, k, multi, b2b);
+        g.op("export", &o);
+    }
+}
+
+/// C08: byte-level objects fed the same bytes in different pieces; one-shot prefix preservation
+fn gen_c08(g: &mut G) {
+    if g.rng.chance(1, 4) {
+        let kind = *g.rng.pick(&["cfb", "cfb8"]);
+        let f = g.pick_fac(kind);
+        let bs = g.bs(f);
+        let dir = if g.rng.coin() { "enc" } else { "dec" };
+        let b2b = g.rng.coin();
+        for j in 0..3 {
+            let o = format!("o{j}");
+            g.new_obj(&o, f, kind, dir, 0, json!({"rand":0}), json!({"rand":0}), "inner");
+            let n = g.nbytes(bs, 4);
+            g.oneshot(&o, "async", n, b2b);
+        }
+        return;
+    }
+    let kind: &str = if g.rng.chance(1, 4) { "cfbbuf" } else { g.stream_kind() };
+    let f = g.pick_fac(kind);
+    let fs = g.same_fn(f, kind);
+    let bs = g.bs(f);
+    let dir = if kind == "cfbbuf" { if g.rng.coin() { "enc" } else { "dec" } } else { "ks" };
+    let b2b = kind != "cfbbuf" && g.rng.coin();
+    let iv = g.iv_for(kind, 0);
+    let n = g.nbytes(bs, 5);
+    let nobj = g.rng.range(2, 4);
+    let mut plans: Vec<Vec<usize>> = vec![vec![n]];
+    for j in 1..nobj {
+        let maxp = if j == 1 { (n / 24).max(1) } else { 2 * bs + 1 };
+        plans.push(g.composition(n, maxp, true));
+    }
+    // one plan ends pieces exactly on block boundaries followed by a short one
+    if nobj > 2 && n > bs {
+        let mut p = vec![];
+        let mut left = n;
+        while left > 0 {
+            let k = bs.min(left);
+            p.push(k);
+            left -= k;
+            if left > 0 {
+                p.push(1.min(left));
+                left -= 1.min(left);
+            }
+        }
+        plans[2] = p;
+    }
+    for j in 0..nobj {
+        let o = format!("o{j}");
+        let fi = *g.rng.pick(&fs);
+        g.new_obj(&o, fi, kind, dir, 0, iv.clone(), json!({"rand":0}), "inner");
+    }
+    let mut idx = vec![0usize; nobj];
+    loop {
+        let alive: Vec<usize> = (0..nobj).filter(|&j| idx[j] < plans[j].len()).collect();
+        if alive.is_empty() {
+            break;
+        }
+        let j = *g.rng.pick(&alive);
+        let k = plans[j][idx[j]];
+        idx[j] += 1;
+        g.bytes(&format!("o{j}"), k, b2b);
+    }
+}
+
+/// C09: export / import at every kind of boundary; encryptor and decryptor agree
+fn gen_c09(g: &mut G) {
+    let mut kinds: Vec<String> = BLOCK_KINDS.iter().map(|s| s.to_string()).collect();
+    kinds.push("cfbbuf".into());
+    for k in CTR_KINDS.iter().chain(["belt", "ofb"].iter()) {
+        kinds.push(core_of(k));
+        kinds.push(k.to_string());
+    }
+    let kind = g.rng.pick(&kinds).clone();
+    let f = g.pick_fac(&kind);
+    let (bs, w) = (g.bs(f), g.w(f));
+    let iv = g.iv_for(&kind, 0);
+    let bytelevel = kind == "cfbbuf" || (!kind.ends_with("core") && !is_block(&kind));
+    if bytelevel {
+        let dir = if kind == "cfbbuf" { if g.rng.coin() { "enc" } else { "dec" } } else { "ks" };
+        g.new_obj("a", f, &kind, dir, 0, iv, json!({"rand":0}), "inner");
+        // wrappers are resumed at block boundaries, buffered CFB at any byte
+        let k = if kind == "cfbbuf" { g.nbytes(bs, 3) } else { bs * g.rng.range(0, 4) };
+        g.sched_bytes("a", k, bs, Some(false), false);
+        g.cmds.push(json!({"op":"import","o":"b","from":"a"}));
+        let n = g.nbytes(bs, 3);
+        let p1 = g.composition(n, 2 * bs, true);
+        for x in p1 {
+            g.bytes("a", x, false);
+        }
+        g.sched_bytes("b", n, bs, Some(false), false);
+        if kind == "cfbbuf" && g.rng.coin() {
+            g.cmds.push(json!({"op":"import","o":"c","from":"b"}));
+            let m = g.nbytes(bs, 2);
+            g.bytes("b", m, false);
+            g.bytes("c", m, false);
+        }
+        return;
+    }
+    let dir = if kind.ends_with("core") { "ks" } else if g.rng.coin() { "enc" } else { "dec" };
+    let mul = if kind == "cfb8" { 2 } else { 1 };
+    if is_block(&kind) && g.rng.chance(1, 3) {
+        // encryptor and matching decryptor report equal states after corresponding data
+        g.new_obj("e", f, &kind, "enc", 0, iv.clone(), json!({"rand":0}), "inner");
+        g.new_obj("d", f, &kind, "dec", 0, iv, json!({"out":"e"}), "inner");
+        let n = g.nblocks(w, 6) * mul;
+        for k in g.composition(n, w + 2, false) {
+            let (m1, m2) = (g.rng.coin(), g.rng.coin());
+            g.blocks("e", k, m1, false);
+            g.op("export", "e");
+            g.blocks("d", k, m2, false);
+            g.op("export", "d");
+        }
+        return;
+    }
+    g.new_obj("a", f, &kind, dir, 0, iv, json!({"rand":0}), "inner");
+    let k = g.nblocks(w, 5) * mul;
+    g.sched_blocks("a", k, w, Some(false), false);
+    g.cmds.push(json!({"op":"import","o":"b","from":"a"}));
+    let n = g.nblocks(w, 5) * mul;
+    g.sched_blocks("a", n, w, Some(false), false);
+    g.op("export", "a");
+    g.sched_blocks("b", n, w, Some(false), false);
+    g.op("export", "b");
+}
+
+fn seek_type_for(g: &mut G, p: u128) -> &'static str {
+    let ok: Vec<&'static str> = SEEK_TYPES.iter().copied().filter(|t| p <= type_max(t)).collect();
+    ok[g.rng.below(ok.len())]
+}
+
+/// C10: seeks (forward, backward, inside blocks, after partial blocks), positions in every type
+fn gen_c10(g: &mut G) {
+    let kind = g.seek_kind();
+    let f = g.pick_fac(kind);
+    let bs = g.bs(f) as u128;
+    let bits = ctr_bits(kind).unwrap();
+    let iv = g.iv_for(kind, 0);
+    let span: u128 = bs * g.rng.range(2, 5) as u128;
+    // window [base, base + span) of the keystream; far windows start on a block boundary
+    let maxblk: u128 = if bits == 128 { u128::MAX / bs - 8 } else { (1u128 << bits) - 10 };
+    let baseblk: u128 = if g.rng.chance(1, 2) {
+        0
+    } else {
+        let e = g.rng.range(4, 100) as u32;
+        let c = *g.rng.pick(&[(1u128 << 28) - 1, (1u128 << 32) / bs, ((1u128 << 32) / bs).saturating_sub(1),
+            (1u128 << 31) / bs, (1u128 << e.min(120)) + 3, (1u128 << 64) / bs, (1u128 << 63) / bs]);
+        c.min(maxblk)
+    };
+    let base = baseblk * bs;
+    // reference: linear run over the window
+    g.new_obj("r", f, kind, "ks", 0, iv.clone(), json!({"zero":1}), "inner");
+    if base > 0 {
+        let t = seek_type_for(g, base);
+        g.cmds.push(json!({"op":"seek","o":"r","t":t,"p":base.to_string()}));
+    }
+    g.bytes("r", span as usize, false);
+    // subject: random walk inside the window
+    g.new_obj("x", f, kind, "ks", 0, iv, json!({"zero":1}), "inner");
+    let mut cur = 0u128;
+    let nops = g.rng.range(3, 9);
+    for _ in 0..nops {
+        match g.rng.below(4) {
+            0 | 1 => {
+                let p = base + g.rng.below(span as usize) as u128;
+                let t = seek_type_for(g, p);
+                g.cmds.push(json!({"op":"seek","o":"x","t":t,"p":p.to_string()}));
+                cur = p;
+            }
+            2 => {
+                if cur < base {
+                    continue;
+                }
+                let room = (base + span - cur) as usize;
+                let n = g.rng.below(room.min(2 * bs as usize + 2) + 1);
+                let _r1 = g.rng.coin();
+                g.bytes("x", n, _r1);
+                cur += n as u128;
+            }
+            _ => {
+                let t = *g.rng.pick(&SEEK_TYPES);
+                g.cmds.push(json!({"op":"pos","o":"x","t":t}));
+            }
+        }
+    }
+    for t in SEEK_TYPES {
+        if g.rng.coin() {
+            g.cmds.push(json!({"op":"pos","o":"x","t":t}));
+        }
+    }
+}
+
+/// C11: behaviour in the last few blocks before the keystream ends
+fn gen_c11(g: &mut G) {
+    let kind = g.seek_kind();
+    let f = g.pick_fac(kind);
+    let bs = g.bs(f);
+    let bits = ctr_bits(kind).unwrap();
+    let iv = g.iv_for(kind, 0);
+    g.new_obj("x", f, kind, "ks", 0, iv, json!({"rand":0}), "inner");
+    // start k blocks (and maybe some bytes) before the end
+    let kblocks = g.rng.range(0, 4) as i64;
+    let back = g.rng.below(bs) as i64;
+    let mut remaining: i64; // bytes left before the end
+    if bits <= 64 && g.rng.chance(3, 4) {
+        // by seeking (u64 reaches the end for 32-bit counters, u128 for 64-bit ones)
+        let off = kblocks * bs as i64 + back;
+        let t = if bits == 32 && g.rng.coin() { "u64" } else { "u128" };
+        g.cmds.push(json!({"op":"seek","o":"x","t":t,"p":{"end": -off}}));
+        remaining = off;
+    } else {
+        // by positioning the core before wrapping it (from_core path)
+        g.cmds.push(json!({"op":"setbpos","o":"x","v":{"end": -kblocks}}));
+        remaining = kblocks * bs as i64;
+    }
+    let nops = g.rng.range(3, 8);
+    for _ in 0..nops {
+        match g.rng.below(6) {
+            0 => g.op("rem", "x"),
+            1 => {
+                let t = *g.rng.pick(&SEEK_TYPES);
+                g.cmds.push(json!({"op":"pos","o":"x","t":t}));
+            }
+            _ => {
+                // request lengths around what is left
+                let c = [remaining - 1, remaining, remaining + 1, remaining + bs as i64, 0, 1, bs as i64,
+                         remaining - bs as i64, remaining / 2, remaining + 2 * bs as i64 + 1];
+                let n = (*g.rng.pick(&c)).max(0);
+                let _r1 = g.rng.coin();
+                g.bytes("x", n as usize, _r1);
+                if n <= remaining {
+                    remaining -= n;
+                }
+                if g.rng.coin() {
+                    g.op("rem", "x");
+                    g.cmds.push(json!({"op":"pos","o":"x","t":"u128"}));
+                }
+            }
+        }
+    }
+    // seek beyond the end is an error (targets at least one whole block past the end)
+    if bits <= 64 && g.rng.coin() {
+        let past = (bs as i64) * g.rng.range(1, 3) as i64 + g.rng.below(bs) as i64;
+        g.cmds.push(json!({"op":"seek","o":"x","t":"u128","p":{"end": past}}));
+        g.cmds.push(json!({"op":"pos","o":"x","t":"u128"}));
+    }
+}
+
+/// C12: the same calls in place and buffer-to-buffer
+fn gen_c12(g: &mut G) {
+    let mut kinds: Vec<String> = BLOCK_KINDS.iter().map(|s| s.to_string()).collect();
+    for k in CTR_KINDS.iter().chain(["belt", "ofb"].iter()) {
+        kinds.push(core_of(k));
+        kinds.push(k.to_string());
+    }
+    for k in CTS_KINDS {
+        kinds.push(k.to_string());
+    }
+    kinds.push("async".into());
+    kinds.push("padded".into());
+    let mut kind = g.rng.pick(&kinds).clone();
+    let mut how = "";
+    if kind == "async" {
+        kind = g.rng.pick(&["cfb", "cfb8"]).to_string();
+        how = "async";
+    } else if kind == "padded" {
+        kind = g.rng.pick(&["cbc", "pcbc", "ige", "cfb", "ofbblk"]).to_string();
+        how = "padded";
+    } else if CTS_KINDS.contains(&kind.as_str()) {
+        how = "cts";
+    }
+    let f = g.pick_fac(&kind);
+    let (bs, w) = (g.bs(f), g.w(f));
+    let dir = if kind.ends_with("core") || ctr_bits(&kind).is_some() || kind == "ofb" { "ks" } else if g.rng.coin() { "enc" } else { "dec" };
+    let iv = g.iv_for(&kind, 0);
+    g.new_obj("p", f, &kind, dir, 0, iv.clone(), json!({"rand":0}), "inner");
+    g.new_obj("q", f, &kind, dir, 0, iv, json!({"rand":0}), "inner");
+    if !how.is_empty() {
+        let n = match how {
+            "cts" => bs + g.nbytes(bs, 2 * w.min(4) + 2),
+            "padded" if dir == "dec" => bs * g.rng.range(1, 4),
+            _ => g.nbytes(bs, 4),
+        };
+        if how == "padded" {
+            let room = if dir == "enc" { bs * (n / bs + 1) } else { n };
+            g.cmds.push(json!({"op":"oneshot","o":"p","how":how,"n":n,"b2b":false}));
+            g.cmds.push(json!({"op":"oneshot","o":"q","how":how,"n":n,"b2b":true,"junklen":room + g.rng.below(2)}));
+        } else {
+            g.oneshot("p", how, n, false);
+            g.oneshot("q", how, n, true);
+        }
+        return;
+    }
+    let bytelevel = !kind.ends_with("core") && !is_block(&kind);
+    if bytelevel {
+        let n = g.nbytes(bs, 5);
+        for k in g.composition(n, 2 * bs + 1, true) {
+            g.bytes("p", k, false);
+            g.bytes("q", k, true);
+        }
+    } else {
+        let n = g.nblocks(w, 9) * if kind == "cfb8" { 2 } else { 1 };
+        for k in g.composition(n, 2 * w + 2, false) {
+            let multi = g.rng.chance(2, 3);
+            g.blocks("p", k, multi, false);
+            g.op("export", "p");
+            g.blocks("q", k, multi, true);
+            g.op("export", "q");
+        }
+    }
+}
+
+/// C13: contract violations are rejected without side effects; nothing panics
+fn gen_c13(g: &mut G) {
+    match g.rng.below(10) {
+        0 | 1 => {
+            // ciphertext stealing: short messages rejected, everything else accepted
+            let kind = *g.rng.pick(&CTS_KINDS);
+            let f = g.pick_fac(kind);
+            let bs = g.bs(f);
+            let dir = if g.rng.coin() { "enc" } else { "dec" };
+            g.new_obj("a", f, kind, dir, 0, json!({"rand":0}), json!({"rand":0}), "inner");
+            let n = match g.rng.below(4) {
+                0 => g.rng.below(bs),
+                1 => bs - 1,
+                2 => bs,
+                _ => g.nbytes(bs, 3),
+            };
+            let b2b = g.rng.coin();
+            if b2b && g.rng.coin() {
+                let jl = (n as i64 + *g.rng.pick(&[-1i64, 1, 2, bs as i64])).max(0) as usize;
+                g.cmds.push(json!({"op":"oneshot","o":"a","how":"cts","n":n,"b2b":true,"junklen":jl}));
+            } else {
+                g.oneshot("a", "cts", n, b2b);
+            }
+        }
+        2 | 3 => {
+            // buffer-to-buffer with unequal lengths: blocks, keystream bytes, async one-shot
+            let which = g.rng.below(3);
+            if which == 0 {
+                let kind = *g.rng.pick(&BLOCK_KINDS);
+                let f = g.pick_fac(kind);
+                let w = g.w(f);
+                let dir = if g.rng.coin() { "enc" } else { "dec" };
+                g.new_obj("a", f, kind, dir, 0, json!({"rand":0}), json!({"rand":0}), "inner");
+                let pre = g.rng.below(3);
+                g.sched_blocks("a", pre, w, None, false);
+                let n = g.rng.range(0, 4);
+                let jl = (n as i64 + *g.rng.pick(&[-1i64, 1, 2])).max(0) as usize;
+                let u = g.unit(f, kind);
+                g.cmds.push(json!({"op":"blocks","o":"a","n":n,"multi":true,"b2b":true,"junklen":jl * u}));
+                g.op("export", "a");
+                g.sched_blocks("a", 2, w, None, true);
+            } else if which == 1 {
+                let kind = g.stream_kind();
+                let f = g.pick_fac(kind);
+                let bs = g.bs(f);
+                g.new_obj("a", f, kind, "ks", 0, json!({"rand":0}), json!({"rand":0}), "inner");
+                let pre = g.nbytes(bs, 1);
+                g.bytes("a", pre, false);
+                let n = g.nbytes(bs, 2);
+                let jl = (n as i64 + *g.rng.pick(&[-1i64, 1, bs as i64])).max(0) as usize;
+                g.cmds.push(json!({"op":"bytes","o":"a","n":n,"b2b":true,"junklen":jl}));
+                let _r1 = g.rng.coin();
+                g.bytes("a", bs + 1, _r1);
+            } else {
+                let kind = *g.rng.pick(&["cfb", "cfb8"]);
+                let f = g.pick_fac(kind);
+                let bs = g.bs(f);
+                let dir = if g.rng.coin() { "enc" } else { "dec" };
+                g.new_obj("a", f, kind, dir, 0, json!({"rand":0}), json!({"rand":0}), "inner");
+                let n = g.nbytes(bs, 2);
+                let jl = (n as i64 + *g.rng.pick(&[-1i64, 1, bs as i64])).max(0) as usize;
+                g.cmds.push(json!({"op":"oneshot","o":"a","how":"async","n":n,"b2b":true,"junklen":jl}));
+            }
+        }
+        4 => {
+            // padded decryption: non-multiples rejected; arbitrary data either unpads or errs, never panics
+            let kind = *g.rng.pick(&["cbc", "pcbc", "ige", "cfb", "ofbblk", "cfb8"]);
+            let f = g.pick_fac(kind);
+            let bs = g.bs(f);
+            g.new_obj("a", f, kind, "dec", 0, json!({"rand":0}), json!({"rand":0}), "inner");
+            let n = if g.rng.coin() { g.nbytes(bs, 3) } else { bs * g.rng.range(0, 3) };
+            let b2b = g.rng.coin();
+            let jl = if g.rng.chance(1, 4) { n.saturating_sub(1) } else { n + g.rng.below(2) };
+            g.cmds.push(json!({"op":"oneshot","o":"a","how":"padded","n":n,"b2b":b2b,"junklen":jl}));
+        }
+        5 => {
+            // padded encryption with exactly enough, more than enough, or too little room
+            let kind = *g.rng.pick(&["cbc", "pcbc", "ige", "cfb", "ofbblk"]);
+            let f = g.pick_fac(kind);
+            let bs = g.bs(f);
+            g.new_obj("a", f, kind, "enc", 0, json!({"rand":0}), json!({"rand":0}), "inner");
+            let n = g.nbytes(bs, 3);
+            let need = bs * (n / bs + 1);
+            let jl = (need as i64 + *g.rng.pick(&[0i64, 0, 1, -1, -(bs as i64)])).max(0) as usize;
+            g.cmds.push(json!({"op":"oneshot","o":"a","how":"padded","n":n,"b2b":true,"junklen":jl}));
+        }
+        6 | 7 => {
+            // construction from slices of right and wrong lengths
+            let mut kinds: Vec<String> = BLOCK_KINDS.iter().map(|s| s.to_string()).collect();
+            kinds.push("cfbbuf".into());
+            for k in CTR_KINDS.iter().chain(["belt", "ofb"].iter()) {
+                kinds.push(k.to_string());
+            }
+            for k in CTS_KINDS {
+                kinds.push(k.to_string());
+            }
+            let kind = g.rng.pick(&kinds).clone();
+            let f = g.pick_fac(&kind);
+            let bs = g.bs(f);
+            let kl = g.facs[f].keylen();
+            let ivfull = if kind == "ige" { 2 * bs } else if kind.starts_with("ecbcs") { 0 } else { bs };
+            let keylen = *g.rng.pick(&[kl, kl, kl, kl - 1, kl + 1, 0]);
+            let ivlen = if kind.starts_with("ecbcs") { 0 } else {
+                *g.rng.pick(&[ivfull, ivfull, ivfull, ivfull - 1, ivfull + 1, bs, 2 * bs, 0])
+            };
+            let dir = if ctr_bits(&kind).is_some() || kind == "ofb" { "ks" } else if g.rng.coin() { "enc" } else { "dec" };
+            g.cmds.push(json!({"op":"new","o":"a","fac":g.name(f),"kind":kind,"dir":dir,"key":0,"iv":{"rand":0},
+                "via":"slices","src":{"rand":0},"keylen":keylen,"ivlen":ivlen}));
+        }
+        8 => {
+            // zero-length input to every entry point
+            let mut kinds: Vec<String> = BLOCK_KINDS.iter().map(|s| s.to_string()).collect();
+            kinds.push("cfbbuf".into());
+            for k in CTR_KINDS.iter().chain(["belt", "ofb"].iter()) {
+                kinds.push(core_of(k));
+                kinds.push(k.to_string());
+            }
+            let kind = g.rng.pick(&kinds).clone();
+            let f = g.pick_fac(&kind);
+            let dir = if kind.ends_with("core") || ctr_bits(&kind).is_some() || kind == "ofb" { "ks" } else if g.rng.coin() { "enc" } else { "dec" };
+            g.new_obj("a", f, &kind, dir, 0, json!({"rand":0}), json!({"rand":0}), "inner");
+            let b = g.rng.coin();
+            if kind.ends_with("core") || is_block(&kind) {
+                g.blocks("a", 0, true, b);
+                let _r1 = g.rng.coin();
+                g.blocks("a", 1, _r1, b);
+                g.blocks("a", 0, true, !b);
+                if (kind == "cfb" || kind == "cfb8") && g.rng.coin() {
+                    g.oneshot("a", "async", 0, b);
+                } else if is_block(&kind) && g.rng.coin() {
+                    g.cmds.push(json!({"op":"oneshot","o":"a","how":"padded","n":0,"b2b":b,"junklen":g.bs(f)}));
+                }
+            } else {
+                g.bytes("a", 0, b && kind != "cfbbuf");
+                g.bytes("a", 1, false);
+                g.bytes("a", 0, false);
+            }
+            g.op("export", "a");
+        }
+        _ => {
+            // seeks with every integer type to targets that fit it
+            let kind = g.seek_kind();
+            let f = g.pick_fac(kind);
+            let bs = g.bs(f) as u128;
+            let bits = ctr_bits(kind).unwrap();
+            g.new_obj("a", f, kind, "ks", 0, json!({"rand":0}), json!({"rand":0}), "inner");
+            for _ in 0..g.rng.range(1, 4) {
+                let t = *g.rng.pick(&SEEK_TYPES);
+                let tm = type_max(t);
+                let end: u128 = if bits == 128 { u128::MAX } else { ((1u128 << bits) - 1).saturating_mul(bs) };
+                let c = [0u128, 1, bs - 1, bs, bs + 1, tm, tm - 1, tm / 2, tm - bs, (tm / bs) * bs];
+                let mut p = *g.rng.pick(&c);
+                p = p.min(tm);
+                // keep clear of the known-finding region (the last, never-generated block)
+                if bits < 128 && p > end - bs && p < end + bs {
+                    p = end;
+                }
+                g.cmds.push(json!({"op":"seek","o":"a","t":t,"p":p.to_string()}));
+                g.cmds.push(json!({"op":"pos","o":"a","t":*g.rng.pick(&SEEK_TYPES)}));
+                let _r1 = g.rng.below(3);
+                g.bytes("a", _r1, false);
+            }
+        }
+    }
+}
+
+/// C14: interchangeable front-ends
+fn gen_c14(g: &mut G) {
+    match g.rng.below(6) {
+        0 => {
+            // buffered vs block-level vs one-shot CFB
+            let f = g.pick_fac("cfb");
+            let (bs, w) = (g.bs(f), g.w(f));
+            let dir = if g.rng.coin() { "enc" } else { "dec" };
+            let nb = g.nblocks(w, 6);
+            let tail = if g.rng.coin() { g.rng.below(bs) } else { 0 };
+            g.new_obj("buf", f, "cfbbuf", dir, 0, json!({"rand":0}), json!({"rand":0}), "inner");
+            g.new_obj("blk", f, "cfb", dir, 0, json!({"rand":0}), json!({"rand":0}), "inner");
+            g.new_obj("one", f, "cfb", dir, 0, json!({"rand":0}), json!({"rand":0}), "inner");
+            g.sched_bytes("buf", nb * bs + tail, bs, Some(false), false);
+            g.sched_blocks("blk", nb, w, None, true);
+            let b = g.rng.coin();
+            g.oneshot("one", "async", nb * bs + tail, b);
+        }
+        1 => {
+            // OFB: block encryptor, block decryptor, keystream core, byte stream
+            let f = g.pick_fac("ofb");
+            let (bs, w) = (g.bs(f), g.w(f));
+            let nb = g.nblocks(w, 6).max(1);
+            g.new_obj("e", f, "ofbblk", "enc", 0, json!({"rand":0}), json!({"rand":0}), "inner");
+            g.new_obj("d", f, "ofbblk", "dec", 0, json!({"rand":0}), json!({"rand":0}), "inner");
+            g.new_obj("k", f, "ofbcore", "ks", 0, json!({"rand":0}), json!({"rand":0}), "inner");
+            g.new_obj("s", f, "ofb", "ks", 0, json!({"rand":0}), json!({"rand":0}), "inner");
+            g.sched_blocks("e", nb, w, None, true);
+            g.sched_blocks("d", nb, w, None, true);
+            g.sched_blocks("k", nb, w, None, true);
+            g.sched_bytes("s", nb * bs, bs, None, false);
+            g.op("export", "e");
+            g.op("export", "d");
+            g.op("export", "k");
+            g.op("export", "s");
+        }
+        2 => {
+            // CTR core driven block-wise vs byte-level cipher
+            let kind: &str = if g.rng.chance(1, 5) { "belt" } else { *g.rng.pick(&CTR_KINDS) };
+            let f = g.pick_fac(kind);
+            let (bs, w) = (g.bs(f), g.w(f));
+            let iv = g.iv_for(kind, 0);
+            let nb = g.nblocks(w, 7).max(1);
+            g.new_obj("k", f, &core_of(kind), "ks", 0, iv.clone(), json!({"rand":0}), "inner");
+            g.new_obj("s", f, kind, "ks", 0, iv, json!({"rand":0}), "inner");
+            g.sched_blocks("k", nb, w, None, false);
+            g.sched_bytes("s", nb * bs, bs, None, false);
+            g.op("export", "k");
+            g.op("export", "s");
+        }
+        3 => {
+            // CBC-CSx on whole blocks vs the cbc crate
+            let v = g.rng.range(1, 3);
+            let kind = format!("cbccs{v}");
+            let f = g.pick_fac(&kind);
+            let (bs, w) = (g.bs(f), g.w(f));
+            let dir = if g.rng.coin() { "enc" } else { "dec" };
+            let nb = g.rng.range(1, 2 * w.min(4) + 3);
+            g.new_obj("t", f, &kind, dir, 0, json!({"rand":0}), json!({"rand":0}), "inner");
+            let b = g.rng.coin();
+            g.oneshot("t", "cts", nb * bs, b);
+            // the plain mode sees the same bytes (for CS3 decryption: with the last two blocks exchanged back)
+            let src = if dir == "dec" && v == 3 && nb >= 2 {
+                json!({"splice": {"rand":0}, "at": (nb - 2) * bs, "then":
+                    {"splice": {"shift": {"rand":0}, "by": bs as i64}, "at": (nb - 1) * bs, "then": {"shift": {"rand":0}, "by": -(bs as i64)}}})
+            } else {
+                json!({"rand":0})
+            };
+            g.new_obj("c", f, "cbc", dir, 0, json!({"rand":0}), src, "inner");
+            g.sched_blocks("c", nb, w, None, false);
+        }
+        4 => {
+            // ECB-CSx on whole blocks vs raw block encryption (through the logged cipher graph)
+            let v = g.rng.range(1, 3);
+            let kind = format!("ecbcs{v}");
+            let f = g.pick_fac(&kind);
+            let (bs, w) = (g.bs(f), g.w(f));
+            let dir = if g.rng.coin() { "enc" } else { "dec" };
+            let nb = g.rng.range(1, 2 * w.min(4) + 3);
+            g.new_obj("t", f, &kind, dir, 0, json!({"rand":0}), json!({"rand":0}), "inner");
+            let b = g.rng.coin();
+            g.oneshot("t", "cts", nb * bs, b);
+        }
+        _ => {
+            // construction from key bytes vs from a keyed cipher
+            let mut kinds: Vec<String> = BLOCK_KINDS.iter().map(|s| s.to_string()).collect();
+            kinds.push("cfbbuf".into());
+            for k in CTR_KINDS.iter().chain(["belt", "ofb"].iter()) {
+                kinds.push(k.to_string());
+            }
+            let kind = g.rng.pick(&kinds).clone();
+            let f = g.pick_fac(&kind);
+            let (bs, w) = (g.bs(f), g.w(f));
+            let bytelevel = !is_block(&kind);
+            let dir = if ctr_bits(&kind).is_some() || kind == "ofb" { "ks" } else if g.rng.coin() { "enc" } else { "dec" };
+            let iv = g.iv_for(&kind, 0);
+            let vias = ["inner", "key_iv", "slices"];
+            let n = if bytelevel { g.nbytes(bs, 3) } else { g.nblocks(w, 5) };
+            for (j, via) in vias.iter().enumerate() {
+                let o = format!("o{j}");
+                g.new_obj(&o, f, &kind, dir, 0, iv.clone(), json!({"rand":0}), via);
+                if bytelevel {
+                    g.sched_bytes(&o, n, bs, Some(false), false);
+                } else {
+                    g.sched_blocks(&o, n, w, Some(false), false);
+                    g.op("export", &o);
+                }
+            }
+        }
+    }
+}
+
+/// C15: error propagation and data dependence
+fn gen_c15(g: &mut G) {
+    let mut kinds: Vec<String> = BLOCK_KINDS.iter().map(|s| s.to_string()).collect();
+    for k in CTR_KINDS.iter().chain(["belt", "ofb"].iter()) {
+        kinds.push(k.to_string());
+    }
+    kinds.push("cfbbuf".into());
+    let kind = g.rng.pick(&kinds).clone();
+    let f = g.pick_fac(&kind);
+    let (bs, w) = (g.bs(f), g.w(f));
+    let iv = g.iv_for(&kind, 0);
+    let bytelevel = !is_block(&kind);
+    let dir = if ctr_bits(&kind).is_some() || kind == "ofb" { "ks" } else { "dec" };
+    // perturbation unit: block for cbc/cfb/pcbc/ige, byte otherwise
+    let pu = if ["cbc", "cfb", "pcbc", "ige"].contains(&kind.as_str()) { bs } else { 1 };
+    let units_total = if pu == 1 { (g.rng.range(2, 4) * bs + g.rng.below(bs)).max(3) } else { g.rng.range(2, 2 * w.min(4) + 4) };
+    let j = g.rng.below(units_total); // 0-based perturbed unit
+    let mut delta = vec![0u8; pu];
+    if g.rng.coin() {
+        let b = g.rng.below(pu);
+        delta[b] = 1 << g.rng.below(8);
+    } else {
+        delta = g.rng.bytes(pu);
+        if delta.iter().all(|&x| x == 0) {
+            delta[0] = 0x80;
+        }
+    }
+    let total_bytes = units_total * pu;
+    g.new_obj("a", f, &kind, dir, 0, iv.clone(), json!({"rand":0}), "inner");
+    g.new_obj("b", f, &kind, dir, 0, iv.clone(), json!({"xor": {"rand":0}, "at": j * pu, "delta": delta}), "inner");
+    if bytelevel {
+        g.sched_bytes("a", total_bytes, bs, Some(false), false);
+        g.sched_bytes("b", total_bytes, bs, Some(false), false);
+        if dir == "ks" {
+            // a third object with unrelated data: the keystream must not depend on it
+            g.new_obj("c", f, &kind, dir, 0, iv, json!({"rand":7}), "inner");
+            g.sched_bytes("c", total_bytes, bs, Some(false), false);
+        }
+    } else {
+        let nunits = if kind == "cfb8" { total_bytes } else { total_bytes / bs };
+        g.sched_blocks("a", nunits, w, None, false);
+        g.sched_blocks("b", nunits, w, None, false);
+        if (kind == "cfb" || kind == "cfb8") && g.rng.chance(1, 3) {
+            // one-shot forms with a partial tail
+            let n = total_bytes + g.rng.below(bs);
+            g.new_obj("p", f, &kind, dir, 0, iv.clone(), json!({"rand":0}), "inner");
+            g.new_obj("q", f, &kind, dir, 0, iv, json!({"xor": {"rand":0}, "at": j * pu, "delta": delta}), "inner");
+            g.oneshot("p", "async", n, false);
+            g.oneshot("q", "async", n, false);
+        }
+    }
+}
+
+/// C16: clones at every point, continued in any interleaving, against fresh replays
+fn gen_c16(g: &mut G) {
+    let mut kinds: Vec<String> = BLOCK_KINDS.iter().map(|s| s.to_string()).collect();
+    kinds.push("cfbbuf".into());
+    for k in CTR_KINDS.iter().chain(["ofb"].iter()) {
+        kinds.push(core_of(k));
+        kinds.push(k.to_string());
+    }
+    for k in CTS_KINDS {
+        kinds.push(k.to_string());
+    }
+    let kind = g.rng.pick(&kinds).clone();
+    let f = g.pick_fac(&kind);
+    let (bs, w) = (g.bs(f), g.w(f));
+    let iv = g.iv_for(&kind, 0);
+    let ks = kind.ends_with("core") || ctr_bits(&kind).is_some() || kind == "ofb";
+    let dir = if ks { "ks" } else if g.rng.coin() { "enc" } else { "dec" };
+    if CTS_KINDS.contains(&kind.as_str()) {
+        let n = bs + g.nbytes(bs, 3);
+        g.new_obj("o", f, &kind, dir, 0, iv.clone(), json!({"rand":0}), "inner");
+        g.cmds.push(json!({"op":"clone","o":"c","from":"o"}));
+        g.new_obj("r", f, &kind, dir, 0, iv, json!({"rand":0}), "inner");
+        let order = if g.rng.coin() { ["o", "c", "r"] } else { ["c", "r", "o"] };
+        for o in order {
+            let _r1 = g.rng.coin();
+            g.oneshot(o, "cts", n, _r1);
+        }
+        return;
+    }
+    let bytelevel = !kind.ends_with("core") && !is_block(&kind);
+    let mul = if kind == "cfb8" { 2 } else { 1 };
+    // an unrelated live instance under another key, used in between
+    let other_kind = *g.rng.pick(&["cbc", "cfb", "ofbblk"]);
+    g.new_obj("z", f, other_kind, "enc", 5, json!({"rand":9}), json!({"rand":9}), "inner");
+    g.new_obj("o", f, &kind, dir, 0, iv.clone(), json!({"rand":0}), "inner");
+    // history before the clone
+    let h1 = if bytelevel { g.nbytes(bs, 2) } else { g.nblocks(w, 4) * mul };
+    if bytelevel { g.sched_bytes("o", h1, bs, Some(false), false) } else { g.sched_blocks("o", h1, w, Some(false), false) }
+    let seeked = ctr_bits(&kind).is_some() && !kind.ends_with("core") && g.rng.chance(1, 4);
+    if seeked {
+        let p = g.rng.below(4 * bs);
+        g.cmds.push(json!({"op":"seek","o":"o","t":"u64","p":p.to_string()}));
+    }
+    g.cmds.push(json!({"op":"clone","o":"c","from":"o"}));
+    // continuations: original continues with its own stream, the clone with another one
+    let n2 = if bytelevel { g.nbytes(bs, 2) } else { g.nblocks(w, 4) * mul };
+    let n3 = if bytelevel { g.nbytes(bs, 2) } else { g.nblocks(w, 4) * mul };
+    // re-create the clone with a spliced source so that it sees different data after the clone point
+    g.cmds.pop();
+    g.cmds.push(json!({"op":"clone","o":"c","from":"o","src":{"rand":3}}));
+    let p2 = g.composition(n2, if bytelevel { 2 * bs } else { w + 2 }, bytelevel);
+    let p3 = g.composition(n3, if bytelevel { 2 * bs } else { w + 2 }, bytelevel);
+    let (mut i2, mut i3) = (0, 0);
+    while i2 < p2.len() || i3 < p3.len() {
+        let pick_o = i3 >= p3.len() || (i2 < p2.len() && g.rng.coin());
+        let (o, k) = if pick_o { i2 += 1; ("o", p2[i2 - 1]) } else { i3 += 1; ("c", p3[i3 - 1]) };
+        if bytelevel { g.bytes(o, k, false) } else { let m = g.rng.coin(); g.blocks(o, k, m, false); g.op("export", o); }
+        if g.rng.chance(1, 3) {
+            g.blocks("z", 1, false, false);
+        }
+    }
+    if !seeked {
+        // fresh replays of (h1 ; h2) and (h1 ; h3)
+        g.new_obj("r1", f, &kind, dir, 0, iv.clone(), json!({"rand":0}), "inner");
+        let unitb = if bytelevel { 1 } else if kind == "cfb8" { 1 } else { bs };
+        g.new_obj("r2", f, &kind, dir, 0, iv, json!({"splice": {"rand":0}, "at": h1 * unitb, "then": {"rand":3}}), "inner");
+        if bytelevel {
+            g.sched_bytes("r1", h1 + n2, bs, Some(false), false);
+            g.sched_bytes("r2", h1 + n3, bs, Some(false), false);
+        } else {
+            for k in g.composition(h1 + n2, w + 2, false) { g.blocks("r1", k, true, false); g.op("export", "r1"); }
+            for k in g.composition(h1 + n3, w + 2, false) { g.blocks("r2", k, true, false); g.op("export", "r2"); }
+        }
+    } else {
+        // after a seek the keystream map (position -> byte) must stay functional: linear reference
+        g.new_obj("r1", f, &kind, dir, 0, iv, json!({"rand":0}), "inner");
+        g.bytes("r1", 8 * bs, false);
+    }
+}
+
+/// C17: Debug / algorithm name are constant per type; nothing of the chaining state survives a drop
+fn gen_c17(g: &mut G) {
+    let mut kinds: Vec<String> = BLOCK_KINDS.iter().map(|s| s.to_string()).collect();
+    kinds.push("cfbbuf".into());
+    for k in CTR_KINDS.iter().chain(["belt", "ofb"].iter()) {
+        kinds.push(core_of(k));
+        kinds.push(k.to_string());
+    }
+    let kind = g.rng.pick(&kinds).clone();
+    // 8-byte windows need blocks of at least 8 bytes
+    let f = loop {
+        let f = g.pick_fac(&kind);
+        if g.bs(f) >= 8 { break f; }
+    };
+    let (bs, w) = (g.bs(f), g.w(f));
+    let ks = kind.ends_with("core") || ctr_bits(&kind).is_some() || kind == "ofb";
+    let wrapper = ks && !kind.ends_with("core");
+    let bytelevel = !kind.ends_with("core") && !is_block(&kind);
+    for (j, key) in [0u64, 1].iter().enumerate() {
+        let o = format!("o{j}");
+        let dir = if ks { "ks" } else if g.rng.coin() { "enc" } else { "dec" };
+        let iv = g.iv_for(&kind, j as u64);
+        g.new_obj(&o, f, &kind, dir, *key, iv, json!({"rand": j}), "inner");
+        g.op("debug", &o);
+        // the byte-stream aliases are probed only at block boundaries here (known finding C17 otherwise)
+        if bytelevel {
+            let n = if wrapper { bs * g.rng.range(0, 3) } else { g.nbytes(bs, 3) };
+            g.bytes(&o, n, false);
+        } else {
+            let n = g.nblocks(w, 4);
+            g.sched_blocks(&o, n, w, None, false);
+        }
+        g.op("debug", &o);
+        g.op("drop", &o);
+    }
+}
+
+
+/// Known finding C11: `try_seek(p)` with p div bs = 2^w - 1 and p mod bs != 0 is accepted by the
+/// byte-level wrapper (dependency), the 32/64-bit counter wraps, and block 0's keystream is reused.
+fn probe_c11(g: &mut G) {
+    let kind = *g.rng.pick(&["ctr32be", "ctr32le", "ctr64be", "ctr64le"]);
+    let f = g.pick_fac(kind);
+    let bs = g.bs(f);
+    g.new_obj("r", f, kind, "ks", 0, json!({"rand":0}), json!({"zero":1}), "inner");
+    g.bytes("r", 2 * bs, false);
+    g.new_obj("x", f, kind, "ks", 0, json!({"rand":0}), json!({"zero":1}), "inner");
+    let off = g.rng.range(1, bs - 1) as i64;
+    g.cmds.push(json!({"op":"seek","o":"x","t":"u128","p":{"end": off}}));
+    g.cmds.push(json!({"op":"pos","o":"x","t":"u128"}));
+    g.op("rem", "x");
+    g.bytes("x", 2 * bs - 1, false);
+    g.cmds.push(json!({"op":"pos","o":"x","t":"u128"}));
+}
+
+/// Known finding C17: Debug of the byte-stream aliases prints the unread keystream bytes (dependency).
+fn probe_c17(g: &mut G) {
+    let kind = g.stream_kind();
+    let f = loop {
+        let f = g.pick_fac(kind);
+        if g.bs(f) >= 8 { break f; }
+    };
+    let bs = g.bs(f);
+    for (j, key) in [0u64, 1].iter().enumerate() {
+        let o = format!("o{j}");
+        g.new_obj(&o, f, kind, "ks", *key, json!({"rand": j}), json!({"rand": j}), "inner");
+        let n = g.rng.range(1, bs - 1);
+        g.bytes(&o, n, false);
+        g.op("debug", &o);
     }
 }
